@@ -63,6 +63,7 @@ int main(void)
     int rc = SETTER(S, NULL, val, len);
     int e = errno;
     take(&after);
+    CHECK(BTS->valid_peer_names == NULL || slist_len(BTS->valid_peer_names) > 0, "C09: INV the expected-name list is absent or non-empty: an empty list would pass for 'names configured' and make OpenSSL check no name at all while tls.verify_peer_name reads true");
     if (rc < 0) {
 	CHECK(rc == -1 && (e == EACCES || e == EINVAL), "C10: a refused set is -1 with EACCES or EINVAL");
 	CHECK(same(&before, &after, -1, false, -1) && before.tc_set == after.tc_set && before.crl_set == after.crl_set && before.names_set == after.names_set,
